@@ -4,6 +4,7 @@ import (
 	"bytes"
 	"context"
 	"math"
+	"sync"
 	"time"
 
 	"github.com/pkg/errors"
@@ -27,6 +28,8 @@ type TempPool struct {
 	cleanRemovedNewOperationsDeep     int
 	cleanRemovedProposalDeep          int
 	cleanRemovedBallotDeep            int
+	setProposalLock                   sync.Mutex
+	setBallotLock                     sync.Mutex
 }
 
 func NewTempPool(
@@ -169,6 +172,9 @@ func (db *TempPool) SetProposal(pr base.ProposalSignFact) (bool, error) {
 	default:
 		pst = i
 	}
+
+	db.setProposalLock.Lock()
+	defer db.setProposalLock.Unlock()
 
 	key := leveldbProposalKey(pr.Fact().Hash())
 
@@ -782,6 +788,9 @@ func (db *TempPool) SetBallot(bl base.Ballot) (bool, error) {
 	default:
 		pst = i
 	}
+
+	db.setBallotLock.Lock()
+	defer db.setBallotLock.Unlock()
 
 	key := leveldbBallotKey(bl.Point(), isaac.IsSuffrageConfirmBallotFact(bl.SignFact().Fact()))
 
